@@ -23,7 +23,7 @@ def built(model, route='A'):
         probs = bd.wellformed(fm)
     except Exception as exc:  # noqa: BLE001
         return fm, [Fail('build-conformance', 'observation raised %s: %s' % (type(exc).__name__, exc))]
-    if ob != model:
+    if not sh.deep_equal(ob, model):
         fails.append(Fail('build-conformance', {'expected': sh.model_str(model), 'observed': _safe_str(ob)}))
     elif probs:
         fails.append(Fail('build-conformance', {'problems': probs[:5]}))
